@@ -116,10 +116,33 @@ pub struct Open {
     pub extra: f64,
     pub null_infoset: f64,
     pub decoy: f64,
+    /// serde's positional form of an inner object (JsonDsl `JPos`)
+    pub positional: f64,
 }
 
-pub const STRICT: Open = Open { extra: 0.0, null_infoset: 0.0, decoy: 0.0 };
-pub const OPEN: Open = Open { extra: 0.3, null_infoset: 0.6, decoy: 0.4 };
+pub const STRICT: Open = Open { extra: 0.0, null_infoset: 0.0, decoy: 0.0, positional: 0.0 };
+pub const OPEN: Open = Open { extra: 0.3, null_infoset: 0.6, decoy: 0.4, positional: 0.25 };
+
+/// the members of `keys`, in this order, as an array; None when one is missing or given twice, or another is present
+fn positional(ms: &[(String, Value)], keys: &[&str], absent: Option<(&str, Value)>) -> Option<Value> {
+    if ms.iter().any(|(k, _)| !keys.contains(&k.as_str())) {
+        return None;
+    }
+    let mut out = Vec::new();
+    for key in keys {
+        let found: Vec<&Value> = ms.iter().filter(|(k, _)| k == key).map(|(_, v)| v).collect();
+        match (found.len(), &absent) {
+            (1, _) => out.push(found[0].clone()),
+            (0, Some((k, v))) if k == key => out.push(v.clone()),
+            _ => return None,
+        }
+    }
+    Some(arr(out))
+}
+
+fn members_of(inner: &Value) -> Option<Vec<(String, Value)>> {
+    Some(inner["f"].as_array()?.iter().map(|m| (m["k"].as_str().unwrap_or("").to_string(), m["v"].clone())).collect())
+}
 
 fn doc_of(t: &Tree, open: &Open, rng: &mut Rng) -> Option<Value> {
     let extra = |ms: &mut Vec<(String, Value)>, rng: &mut Rng| {
@@ -151,6 +174,10 @@ fn doc_of(t: &Tree, open: &Open, rng: &mut Rng) -> Option<Value> {
                     _ => return None,
                 };
                 let mut ms = vec![("prob".to_string(), w), ("state".to_string(), doc_of(&k.t, open, rng)?)];
+                if rng.chance(open.positional) {
+                    outs.push((NAMES[*c].to_string(), positional(&ms, &["prob", "state"], None)?));
+                    continue;
+                }
                 extra(&mut ms, rng);
                 shuffle(&mut ms, rng);
                 outs.push((NAMES[*c].to_string(), obj(ms)));
@@ -162,6 +189,12 @@ fn doc_of(t: &Tree, open: &Open, rng: &mut Rng) -> Option<Value> {
                 outs.insert(0, (name, obj(vec![("state".into(), obj(vec![("terminal".into(), num(99, 1))])), ("prob".into(), num(5, 1))])));
             }
             let mut ms = vec![("outcomes".to_string(), obj(outs))];
+            if rng.chance(open.positional) {
+                if ci != "none" {
+                    ms.push(("infoset".into(), st(ci)));
+                }
+                return Some(obj(vec![("chance".into(), positional(&ms, &["infoset", "outcomes"], Some(("infoset", null())))?)]));
+            }
             if ci != "none" {
                 ms.push(("infoset".into(), st(ci)));
             } else if rng.chance(open.null_infoset) {
@@ -182,6 +215,9 @@ fn doc_of(t: &Tree, open: &Open, rng: &mut Rng) -> Option<Value> {
                 acts.insert(0, (name, obj(vec![("terminal".into(), num(-99, 1))])));
             }
             let mut ms = vec![("player_one".to_string(), boolean(*pl == 1)), ("infoset".to_string(), st(info)), ("actions".to_string(), obj(acts))];
+            if rng.chance(open.positional) {
+                return Some(obj(vec![("player".into(), positional(&ms, &["player_one", "infoset", "actions"], None)?)]));
+            }
             extra(&mut ms, rng);
             shuffle(&mut ms, rng);
             obj(vec![("player".into(), obj(ms))])
@@ -243,7 +279,7 @@ fn nodes(v: &Value, ptr: String, out: &mut Vec<(String, String)>) {
     }
 }
 
-pub const FAULTS: [&str; 36] = [
+pub const FAULTS: [&str; 42] = [
     "two-variants", "no-variant", "unknown-variant", "node-string", "node-array", "node-null", "terminal-string", "terminal-null", "terminal-bool",
     "terminal-object", "missing-outcomes", "missing-actions", "missing-infoset", "missing-player-one", "missing-prob", "missing-state",
     "infoset-twice", "actions-twice", "outcomes-twice", "prob-twice", "player-one-number", "player-one-string", "infoset-number", "infoset-null",
@@ -253,6 +289,9 @@ pub const FAULTS: [&str; 36] = [
     // one node of an infoset lists one action more / one action fewer than the others (a fault only when the infoset has
     // another node: the specification decides)
     "extra-action", "drop-last-action",
+    // serde's positional form of an inner object with an element missing, one too many, or two exchanged; and the
+    // positional form as it should be (open, not a fault: the specification decides)
+    "positional", "positional-short", "positional-long", "positional-swapped", "outcome-positional-short", "outcome-positional-swapped",
 ];
 
 fn members_mut<'a>(doc: &'a mut Value, node: &str) -> Option<&'a mut Vec<Value>> {
@@ -271,7 +310,10 @@ pub fn apply_fault(doc: &Value, fault: &str, rng: &mut Rng) -> Option<Value> {
         "two-variants" | "no-variant" | "unknown-variant" | "node-string" | "node-array" | "node-null" => &["terminal", "chance", "player"],
         "terminal-string" | "terminal-null" | "terminal-bool" | "terminal-object" => &["terminal"],
         "missing-outcomes" | "outcomes-twice" | "chance-infoset-number" | "outcomes-array" | "missing-prob" | "missing-state" | "prob-twice"
-        | "prob-string" | "prob-null" | "prob-zero" | "prob-negative" | "no-outcomes" => &["chance"],
+        | "prob-string" | "prob-null" | "prob-zero" | "prob-negative" | "no-outcomes" | "outcome-positional-short" | "outcome-positional-swapped" => {
+            &["chance"]
+        }
+        "positional" | "positional-short" | "positional-long" | "positional-swapped" => &["chance", "player"],
         _ => &["player"],
     };
     let cands: Vec<&(String, String)> = all.iter().filter(|(_, k)| wants.contains(&k.as_str())).collect();
@@ -398,6 +440,47 @@ pub fn apply_fault(doc: &Value, fault: &str, rng: &mut Rng) -> Option<Value> {
                 let last = acts.iter().enumerate().max_by_key(|(_, m)| NAMES.iter().position(|n| Some(*n) == m["k"].as_str()).unwrap_or(0)).map(|(j, _)| j)?;
                 acts.remove(last);
             }
+        }
+        "positional" | "positional-short" | "positional-long" | "positional-swapped" => {
+            let inner = d.pointer(&format!("{ptr}/f/0/v"))?.clone();
+            let ms = members_of(&inner)?;
+            let a = if kind == "chance" {
+                positional(&ms, &["infoset", "outcomes"], Some(("infoset", null())))?
+            } else {
+                positional(&ms, &["player_one", "infoset", "actions"], None)?
+            };
+            let mut e = a["e"].as_array()?.clone();
+            match fault {
+                "positional" => {}
+                "positional-short" => {
+                    let at = rng.below(e.len() as u64) as usize;
+                    e.remove(at);
+                }
+                "positional-long" => e.push(if rng.chance(0.5) { null() } else { obj(vec![]) }),
+                _ => {
+                    let n = e.len();
+                    e.swap(n - 2, n - 1);
+                }
+            }
+            set(&mut d, &format!("{ptr}/f/0/v"), arr(e))?
+        }
+        "outcome-positional-short" | "outcome-positional-swapped" => {
+            let ms = members_mut(&mut d, &ptr)?;
+            let i = member_index(ms, "outcomes")?;
+            let outs = ms[i]["v"]["f"].as_array_mut()?;
+            if outs.is_empty() {
+                return None;
+            }
+            let last = outs.len() - 1;
+            let oms = members_of(&outs[last]["v"])?;
+            let a = positional(&oms, &["prob", "state"], None)?;
+            let mut e = a["e"].as_array()?.clone();
+            if fault == "outcome-positional-short" {
+                e.pop();
+            } else {
+                e.swap(0, 1);
+            }
+            outs[last]["v"] = arr(e);
         }
         "malformed-decoy" => {
             // an earlier occurrence of an action name whose value is not a node: every occurrence is read
